@@ -263,6 +263,48 @@ func c09Gen(rt *rapid.T) c09Case {
 	return c09Case{Input: []byte(head + strings.Repeat(unit, n)), Origin: "long"}
 }
 
+// c09OddRunes: characters whose upper- or lower-case form has a different
+// encoded length, is a different number of characters, or that are letters only
+// to some classifiers - next to four ordinary ones.
+var c09OddRunes = []rune("aZ1_ɐɑɒɜɡɥɪɫɱɽʇʞʝıſßŉǰΐﬁİẞȺȾ\u212a\u212bᾳǅᏸ\u2126µς\u0345ǆΰ\u1e9a\u2c65\ua7ae")
+
+// c09RuneSweep is bounded-exhaustive: every sequence of 1-3 of those characters
+// as a bare word, as a string literal and as a delimited identifier, alone and
+// inside a statement.
+func c09RuneSweep(st *vlib.Stats) string {
+	R := c09OddRunes
+	count := 0
+	try := func(tok string) string {
+		for _, in := range []string{tok, "'" + tok + "'", "SELECT " + tok + " FROM t", "SELECT * FROM t WHERE a = '" + tok + "'", "SELECT \"" + tok + "\" FROM " + tok} {
+			c := c09Case{Input: []byte(in), Origin: "exhaustive:runes"}
+			if msg := c09Run(c, st); msg != "" {
+				b, _ := json.Marshal(c)
+				st.Fail(msg, b)
+				return msg
+			}
+			count++
+		}
+		return ""
+	}
+	for i := Cfg.Shard; i < len(R); i += Cfg.Shards {
+		if msg := try(string(R[i])); msg != "" {
+			return msg
+		}
+		for _, b := range R {
+			if msg := try(string([]rune{R[i], b})); msg != "" {
+				return msg
+			}
+			for _, c := range R {
+				if msg := try(string([]rune{R[i], b, c})); msg != "" {
+					return msg
+				}
+			}
+		}
+	}
+	st.AddExtra("exhaustive_rune_sequences", count)
+	return ""
+}
+
 func TestC09(t *testing.T) {
 	st := vlib.NewStats("C09")
 	defer st.Write(Cfg, "C09")
@@ -292,6 +334,10 @@ func TestC09(t *testing.T) {
 					return
 				}
 			}
+		}
+		if msg := c09RuneSweep(st); msg != "" {
+			vlib.Logf("FAIL C09 (rune sweep): %s", msg)
+			return
 		}
 		length := 3
 		if msg := c09Exhaustive(st, c09Vocabulary(false), length); msg != "" {
